@@ -35,6 +35,9 @@ Operand(f, i) == CASE f = "var" -> <<36, Letter(i)>>
                    \* a unary minus in front of every operand: written tight (-5, -a) and with a space (- 5, - a)
                    [] f = "neg" -> IF (i % 2) = 1 THEN <<45, 48 + i>> ELSE <<45, Letter(i)>>
                    [] f = "negsp" -> IF (i % 2) = 1 THEN <<45, 32, 48 + i>> ELSE <<45, 32, 36, Letter(i)>>
+                   \* operands that end in } and | : function($a){$a}  and  |a|{}|  (what follows them is an operator)
+                   [] f = "fn" -> IF (i % 2) = 1 THEN <<102,117,110,99,116,105,111,110,40,36,97,41,123,36,97,125>> ELSE <<124, Letter(i), 124, 123, 125, 124>>
+                   [] f = "xf" -> IF (i % 2) = 0 THEN <<102,117,110,99,116,105,111,110,40,36,97,41,123,36,97,125>> ELSE <<124, Letter(i), 124, 123, 125, 124>>
 
 \* render a chain: sp = separator placed around every token (<<>> for tight, except around words)
 RECURSIVE Render(_, _, _, _, _)
@@ -56,7 +59,7 @@ Spaced(f, ch) == Text(f, ch, <<32, 10, 9>>)
 
 Chains == UNION {[1..n -> Links] : n \in 2..MaxLinks}
 \* two-level enumeration: the theorems are evaluated on the successor states, by the worker threads
-Init == chain \in Chains /\ flav \in Flavours /\ done = FALSE
+Init == chain \in Chains /\ flav \in Flavours /\ (flav \in {"fn", "xf"} => Len(chain) <= 2) /\ done = FALSE
 Next == ~done /\ done' = TRUE /\ UNCHANGED <<chain, flav>>
 Spec == Init /\ [][Next]_vars
 
